@@ -585,6 +585,8 @@ class PrecipitateModel (PrecipitateBase):
             #Also revert the PSD in case this function was called to adjust for the new PSD bins
             else:
                 growthRate = self.growth[p]
+                xEqAlpha = self.pData.xEqAlpha[self.pData.n,p]
+                xEqBeta = self.pData.xEqBeta[self.pData.n,p]
         else:
             growth, xAlpha, xBeta, xEqAlpha, xEqBeta = growth_result
             #Update interfacial composition for each precipitate size
